@@ -101,7 +101,8 @@ pub fn run_history(hist: &Value, out: &mut dyn Write) {
                 "new" => {
                     ts = op["ts"].as_array().map(|a| a.iter().map(tok::cells_to_string).collect()).unwrap_or_default();
                     let len = if op["nolen"].as_bool().unwrap_or(false) { None } else { Some(u64_of(&op["len"])) };
-                    let b = ProgressBar::with_draw_target(len, ProgressDrawTarget::term_like(Box::new(spy.clone())))
+                    let tgt = if op["hid0"].as_bool().unwrap_or(false) { ProgressDrawTarget::hidden() } else { ProgressDrawTarget::term_like(Box::new(spy.clone())) };
+                    let b = ProgressBar::with_draw_target(len, tgt)
                         .with_finish(ProgressFinish::Abandon)
                         .with_style(style_for("ctr", &ts, &sh))
                         .with_message(tok::cells_to_string(&op["m0"])).with_prefix(tok::cells_to_string(&op["p0"]))
@@ -132,6 +133,7 @@ pub fn run_history(hist: &Value, out: &mut dyn Write) {
                         "abandon" => p.abandon(),
                         "abandon_with_message" => p.abandon_with_message(m()),
                         "reset" => p.reset(),
+                        "show" => p.set_draw_target(ProgressDrawTarget::term_like(Box::new(spy.clone()))),
                         "render" => {
                             let _ = painted_strs(&spy, 0);
                             p.set_style(style_for(op["key"].as_str().unwrap_or("pos"), &ts, &sh));
